@@ -26,8 +26,11 @@ import (
 	"go/types"
 	"sort"
 	"strings"
+	"sync"
 
+	"golang.org/x/tools/go/packages"
 	"golang.org/x/tools/go/ssa"
+	"golang.org/x/tools/go/ssa/ssautil"
 )
 
 const c22MaxDepth = 5
@@ -76,8 +79,53 @@ type c22Engine struct {
 	named   []*types.Named
 }
 
-func c22NewEngine(p *Prog) *c22Engine {
-	e := &c22Engine{p: p, prog: p.SSA(), pSums: map[string]*c22ParamSum{}, rSums: map[string]*c22ResSum{}, busy: map[string]bool{},
+// c22BuildSSA builds SSA bodies only for the module packages that can see the node package (it and its
+// transitive importers) plus the named helper packages, in parallel. Functions of other packages have no
+// body here and are "not analysable" callees (escapes). Much cheaper than Prog.SSA(), which builds every
+// loaded module package sequentially.
+func c22BuildSSA(p *Prog, nodeRel string, extraRels ...string) *ssa.Program {
+	prog, _ := ssautil.AllPackages(p.Roots, ssa.InstantiateGenerics)
+	node := p.Pkg(nodeRel)
+	sees := map[*packages.Package]int{} // 0 unknown, 1 yes, 2 no
+	var visit func(pk *packages.Package) bool
+	visit = func(pk *packages.Package) bool {
+		if pk == node {
+			return true
+		}
+		if v := sees[pk]; v != 0 {
+			return v == 1
+		}
+		sees[pk] = 2
+		for _, im := range pk.Imports {
+			if im.Module != nil && im.Module.Main && visit(im) {
+				sees[pk] = 1
+				return true
+			}
+		}
+		return false
+	}
+	extra := map[*packages.Package]bool{}
+	for _, r := range extraRels {
+		if pk := p.Pkg(r); pk != nil {
+			extra[pk] = true
+		}
+	}
+	var wg sync.WaitGroup
+	for _, pk := range p.Module {
+		if node != nil && !visit(pk) && !extra[pk] {
+			continue
+		}
+		if sp := prog.Package(pk.Types); sp != nil {
+			wg.Add(1)
+			go func() { defer wg.Done(); sp.Build() }()
+		}
+	}
+	wg.Wait()
+	return prog
+}
+
+func c22NewEngine(p *Prog, nodeRel string) *c22Engine {
+	e := &c22Engine{p: p, prog: c22BuildSSA(p, nodeRel, "sql", "sql/transform"), pSums: map[string]*c22ParamSum{}, rSums: map[string]*c22ResSum{}, busy: map[string]bool{},
 		reach: map[*ssa.BasicBlock]map[*ssa.BasicBlock]bool{}, implsOf: map[string][]*ssa.Function{}}
 	for _, pk := range p.Module {
 		sc := pk.Types.Scope()
